@@ -1061,7 +1061,9 @@ def call_builtin(it, f, args, kwargs, node):
             return VIter([VTuple([VConst(i + start), x]) for i, x in enumerate(items)])
         u = VUnknown("enumerate", "iter")
         src = args[0]
-        u.elem = lambda: VTuple([VNum("int", T.sym("enum_i@%s" % it.site(node)), nonneg=True), it.loop_elem(src, False, node)])
+        st_t = T.const(start) if isinstance(start, int) else T.sym("start?")
+        u.elem = lambda: VTuple([VNum("int", T.sym("enum_i@%s" % it.site(node)) + st_t, nonneg=isinstance(start, int) and start >= 0), it.loop_elem(src, False, node)])
+        u.elem_first = lambda: VTuple([VConst(start) if isinstance(start, int) else VNum("int", st_t), it.loop_elem(src, True, node)])
         u.source = src
         return u
     if f == "zip":
@@ -1590,6 +1592,7 @@ def ext_method(it, objv, name, args, kwargs, node):
     if ext == "torch.optim.Optimizer":
         ps = it.concrete_items(inst.attrs.get("params")) if inst.attrs.get("params") is not None else None
         it.ext_calls.append(["optimizer." + name, list(args), dict(kwargs), it.site(node), None])
+        it.note_node("optimizer." + name, node)
         if name == "step":
             if ps is None:
                 it.effect("params", "attr:<all parameters>", node, "optimizer.step")
@@ -1608,6 +1611,7 @@ def ext_method(it, objv, name, args, kwargs, node):
         return VUnknown("optimizer.%s" % name, "unknown")
     if ext == "torch.optim.lr_scheduler":
         it.ext_calls.append(["scheduler." + name, list(args), dict(kwargs), it.site(node), None])
+        it.note_node("scheduler." + name, node)
         it.effect("ext", "lr", node, "scheduler.%s" % name)
         return VConst(None)
     if inst.cls is None:
